@@ -142,3 +142,20 @@ Fixpoint cguard2_sk (s : sk) : bool :=
                 || flat2 l)
   end.
 Definition cousin_guard2 (t : tree) : bool := cguard2_sk (sk_of t).
+
+(* The widest class proved so far (C19_cousins_safe).  For every node and every two of its children
+   a (at index j) before b that both have children:
+     both are flat (all their children are leaves: one level of comparison, exact for any j), or
+     j = 0 and the facing walks are complete (several levels, exact because left_idx = 0).
+   Subsumes cousin_guard and cousin_guard2; the K1 witnesses are outside. *)
+Definition sflat (s : sk) : bool := forallb sleaf (skids s).
+Definition pair_ok (j : nat) (a b : sk) : bool :=
+  (sflat a && sflat b) || (Nat.eqb j 0 && Nat.eqb (hR a) (sheight a) && Nat.eqb (hL b) (sheight b)).
+Fixpoint node_pairs (j : nat) (l : list sk) : bool :=
+  match l with
+  | [] => true
+  | a :: r => (sleaf a || forallb (fun b => sleaf b || pair_ok j a b) r) && node_pairs (S j) r
+  end.
+Fixpoint cguard3_sk (s : sk) : bool :=
+  match s with Sk l => forallb cguard3_sk l && node_pairs 0 l end.
+Definition cousin_safe (t : tree) : bool := cguard3_sk (sk_of t).
